@@ -589,6 +589,10 @@ func modCheck(c *codecCase, wire []byte, res *Result, kind string) {
 			calls = append(calls, "SetPacketID")
 		}
 	case *message.ConnectMessage:
+		if from.Ver != to.Ver {
+			m.SetVersion(byte(to.Ver))
+			calls = append(calls, "SetVersion")
+		}
 		if from.Clean != to.Clean {
 			m.SetCleanSession(to.Clean == 1)
 			calls = append(calls, "SetCleanSession")
